@@ -962,7 +962,17 @@ func execWalRecover(line string) Result {
 		return o
 	}
 	describe := func(want, got c10rDigest) string {
-		return fmt.Sprintf("want n=%d %v, got n=%d %v", want.N, want.Pts, got.N, got.Pts)
+		ts := func(d c10rDigest) string {
+			if d.N > 64 {
+				return "…"
+			}
+			var l []string
+			for _, p := range d.Pts {
+				l = append(l, strconv.FormatUint(p[0], 10))
+			}
+			return strings.Join(l, ",")
+		}
+		return fmt.Sprintf("timestamps in ingest order (n=%d): %s; after recovery (n=%d): %s", want.N, ts(want), got.N, ts(got))
 	}
 	anyCompleted := false
 	var keys []c10rKey
